@@ -13,7 +13,8 @@ cern_polygamma is replaced by its contract (contracts/harmonic_spec.py); basis o
         O(a_s^2)  [L^2] A2 == 1/2 ( A1' gamma0_emb^(nf) - gamma0^(nf+1) A1' + beta0^(nf+1) A1' - 4/3 T_R gamma0_emb^(nf) ),  A1' = dA1/dL   (gluon and light-quark columns)
       with gamma0^(nf+1) the LO anomalous dimensions of nf + 1 flavours in the (g, q, h) basis and gamma0_emb^(nf) those of nf flavours with a non-evolving intrinsic h.
       Polarised space-like O(a_s): the same equation for the gluon and light-quark columns (no intrinsic heavy column is implemented).
-Not claimed: O(a_s^3) (parametrised terms with removable singularities at N = 2), the single-log terms at O(a_s^2) (they need the NLO anomalous dimensions of both
+        O(a_s^3)  [L^3] A3 == 1/3 ( (2 beta0^(nf+1) - gamma0^(nf+1)) [L^2]A2 + [L^2]A2 gamma0_emb - c11 A1' gamma0_emb + c11^2 gamma0_emb ),  c11 = 4/3 T_R, through the dispatcher (at 6 sample moments to 1e-12: the code's coefficients are 16-digit decimals)
+Not claimed: the lower logarithms and the sum rules at O(a_s^3) (parametrised terms with removable singularities at N = 2), the single-log terms at O(a_s^2) (they need the NLO anomalous dimensions of both
 schemes), the time-like (fragmentation) RG structure.
 """
 from fractions import Fraction as Q
@@ -56,6 +57,11 @@ def replay():
         b0 = beta.beta_qcd((2, 0), nf + 1)
         want = 0.5 * (d1 @ emb - full @ d1 + b0 * d1 - 4 / 3 * constants.TR * emb)
         if np.max(np.abs((l2 - want)[:, :2])) > 1e-8: out.append(f"nf={nf}: L^2 coefficient of A2 differs from the RG prediction by {np.max(np.abs((l2 - want)[:, :2])):.2e}")
+        a3 = [ous.A_singlet((3, 0), N, nf, Lv, False)[2] for Lv in (0.0, 1.0, 2.0, 3.0)]
+        l3 = (a3[3] - 3 * a3[2] + 3 * a3[1] - a3[0]) / 6
+        c11 = 4 / 3 * constants.TR
+        want3 = ((2 * b0) * l2 - full @ l2 + l2 @ emb - c11 * (d1 @ emb) + c11**2 * emb) / 3
+        if np.max(np.abs((l3 - want3)[:, :2])) > 1e-7 * max(1.0, np.max(np.abs(want3))): out.append(f"nf={nf}: L^3 coefficient of A3 differs from the RG prediction by {np.max(np.abs((l3 - want3)[:, :2])):.2e}")
     return bool(out), "; ".join(out[:4]) if out else "sum rules and RG structure of the matching elements hold natively"
 '''
 
@@ -132,6 +138,26 @@ def run(chk):
                     b0 = beta.beta_qcd((2, 0), nf + 1)
                     spec = (dA1 @ emb - full @ dA1 + b0 * dA1 - Q(4, 3) * constants.TR * emb) / 2
                     sel2 = np.ix_(range(3), [0, 1])
+                    # O(a_s^3): triple logs through the dispatcher (the entry point the kernels use), from the same chain rule:
+                    #   3 [L^3]A3 == (2 beta0' - gamma0') [L^2]A2 + [L^2]A2 gamma0_emb - c11 A1' gamma0_emb + c11^2 gamma0_emb,   c11 = 4/3 T_R
+                    A3 = omod.A_singlet((3, 0), N, nf, L, False)[2]
+                    l3 = np.vectorize(lambda e: coeffs_in(T.lift(e), "L", 4)[3], otypes=[object])(np.array(A3, dtype=object))
+                    c11 = Q(4, 3) * constants.TR
+                    spec3 = ((2 * b0) * l2 - full @ l2 + l2 @ emb - c11 * (dA1 @ emb) + c11 ** 2 * emb) / 3
+                    # the O(a_s^3) code writes its rational coefficients as 16-digit decimals: the identity holds up to their rounding (1e-16), so it is
+                    # evaluated with 40 digits at sample moments and compared to 1e-12 (a ground numerical statement per sample, not an identity in N)
+                    worst, where = 0.0, None
+                    for Nv in (Q(5, 2), Q(17, 5), Q(41, 10), Q(27, 5), Q(71, 10), Q(9)):
+                        for r in range(3):
+                            for cidx in (0, 1):
+                                x = complex(T.evalmp(T.lift(l3[r, cidx]), {"N": Nv}, 40))
+                                y = complex(T.evalmp(T.lift(spec3[r, cidx]), {"N": Nv}, 40))
+                                dev = abs(x - y) / max(1.0, abs(y))
+                                if dev > worst:
+                                    worst, where = dev, (float(Nv), r, cidx, x, y)
+                    chk.ground(f"C29.rg.order3.triple_logs[nf={nf}]", worst <= 1e-12, fn="ekore.operator_matrix_elements.unpolarized.space_like:A_singlet", replay=rp, backend="exact-eval+mpmath",
+                               goal="[L^3] A3 == 1/3 ((2 beta0' - gamma0') [L^2]A2 + [L^2]A2 gamma0_emb - c11 A1' gamma0_emb + c11^2 gamma0_emb), gluon and light-quark columns, at 6 sample moments to 1e-12",
+                               detail=f"largest relative deviation {worst:.2e} at (N, row, column, code, RG) = {where}")
                     chk.eq_array(f"C29.rg.order2.double_logs[nf={nf}]", l2[sel2], spec[sel2], fn="ekore.operator_matrix_elements.unpolarized.space_like.as2:A_singlet", replay=rp, ranges=RG,
                                  goal="[L^2] A2 == 1/2 (A1' gamma0_emb - gamma0' A1' + beta0' A1' - 4/3 T_R gamma0_emb), gluon and light-quark columns")
     finally:
